@@ -168,6 +168,26 @@ func c11Once(c *Ctx) {
 				}
 			}
 		}
+		if !(ok && n >= 1 && nLookups == 2) && strings.HasSuffix(name, "ForEachResourceRecord") {
+			// the straight-line readers, per path (see c04LookupsPerPath): a located lookup only with the non-empty fact
+			isLk := func(ci ssa.CallInstruction) bool {
+				cc := ci.Common()
+				if cc.IsInvoke() {
+					return cc.Method.Name() == "ForEach"
+				}
+				sf := cc.StaticCallee()
+				return sf != nil && sf.Name() == "ForEach"
+			}
+			keyOf := func(ci ssa.CallInstruction) ssa.Value {
+				if ci.Common().IsInvoke() {
+					return ci.Common().Args[0]
+				}
+				return ci.Common().Args[1]
+			}
+			if c04LookupsPerPath(fn, isLk, keyOf, fLocID) {
+				ok, n, nLookups = true, 1, 2
+			}
+		}
 		c.Check(rule, fnName(fn)+"|located-lookup-only-for-non-empty-location", ok && n >= 1 && nLookups == 2, fn.Pos(), fmt.Sprintf("%d lookups, %d keyed by the client's location, each under the non-empty test", nLookups, n))
 	}
 }
